@@ -252,6 +252,16 @@ def g2(ctx):
                 ctx.check(empty, "false-iff-unchanged", "add_set returns false only on the empty edge", "add_set returns false although the group was rebuilt with new permutations", where_of(b, d["bb"]))
             else:
                 ctx.bad("return-shape", "add_set returns %s" % role_str(r), where_of(b, d["bb"]))
+    newblocks = {c.bb for c in news}
+    for d in b.defs().get(0, []):
+        if d["kind"] == "call":
+            c = d["call"]
+            ctx.bad("growth-without-rebuild:" + (c.callee.name if c.callee else "indirect"),
+                    "add_set returns the result of %s instead of rebuilding the whole chain: new generators can enlarge the orbit of an upper layer or add stabiliser elements there (conjugates by coset representatives), so handing them to a lower layer leaves a strict subset of the generated group" % (c.callee.target if c.callee else "an indirect call"),
+                    where_of(b, d["bb"]))
+        elif b.role_of_rvalue(d["rv"]) != ("const", "false"):
+            ctx.check(b.dominated_by(d["bb"], newblocks), "growth-implies-full-rebuild", "a growth report is dominated by the full rebuild Group::new(identity, generators() | perms)",
+                      "add_set reports growth on a path that did not rebuild the stabiliser chain from all generators", where_of(b, d["bb"]))
     add = fn(crate, "add", GRP)
     dl = [c for c in add.calls if c.callee and c.callee.target == b.id]
     ctx.check(len(dl) == 1 and strip_role(add.role_of_local(0))[0] == "call" and strip_role(add.role_of_local(0))[1] == "add_set", "add-delegates",
